@@ -420,9 +420,16 @@ impl<'a> Interp<'a> {
                 }
                 // "first performs a fold_keyed/reduce_keyed on each input stream before joining";
                 // 'static == persist::<'static>() before that input.
+                // Persistence arguments: for `join_fused` first -> port 0, second -> port 1 (as `join`).
+                // For the half-fused forms the FIRST argument belongs to the FUSED side and the second
+                // to the streaming side: `join_fused_rhs` is "identical to join_fused_lhs except that
+                // it is the right hand side that is fused", and the repo's own tests
+                // (surface_join_fused.rs, static_tick_lhs_streaming_rhs_blocking) pin that reading.
+                // So for `join_fused_rhs::<a, b>`: a -> port 1 (fused), b -> port 0 (streaming).
                 JoinFused(pa, pb) | JoinFusedLhs(pa, pb) | JoinFusedRhs(pa, pb) => {
-                    begin(*pa, &mut st.a);
-                    begin(*pb, &mut st.b);
+                    let (p0, p1) = if matches!(node.op, JoinFusedRhs(..)) { (*pb, *pa) } else { (*pa, *pb) };
+                    begin(p0, &mut st.a);
+                    begin(p1, &mut st.b);
                     st.a.extend(inp[0].iter().cloned());
                     st.b.extend(inp[1].iter().cloned());
                     let lhs: Vec<(Val, Val)> = if matches!(node.op, JoinFused(..) | JoinFusedLhs(..)) {
